@@ -381,3 +381,61 @@ Example C01_compile_correct_f1_instance_ok :
   | _, _ => False
   end.
 Proof. vm_compute. repeat split; reflexivity. Qed.
+
+(* ==== fragment F2a: F1 plus conditionals ====
+   statements of main:  SetGlobalVar g e | Comment | IfTrue e s | IfFalse e s | IfElse e s s, with e an
+   expression of F1 and s again such a statement (C01SimDefs2.in_f2).  The forward jumps of the
+   compiled conditionals carry absolute byte addresses written by back-patching; the extra hypothesis
+   is that the bytecode is shorter than 2^31 bytes (a jump operand is an i32; the debug build of the VM
+   asserts it is not negative).  A run dispatches at most every instruction of main once, so the same
+   budget bound as in F1 suffices (needed_f2).  Not covered: Composite bodies, locals, loops, calls. *)
+From Cao Require C01SimDefs2 C01SimF2.
+
+Theorem C01_compile_correct_f2 :
+  forall (F : Vm.fops) (bld : Vm.build) (M : module) (B : Compiler.compiled) (fuel : nat) (host : list str)
+         (o : obs) (budget : nat),
+    C01SimDefs2.in_f2 M = true ->
+    C01SimDefs.handles_inj (C01SimDefs2.main_names2 (C01SimDefs.main_cards M)) = true ->
+    C01SimDefs2.depth_ok2 (C01SimDefs.main_cards M) = true ->
+    Compiler.compile M CompilerProofs.default_options = Compiler.COk B ->
+    (N.of_nat (List.length (Compiler.p_ids B)) < Bits.two32)%N ->
+    (N.of_nat (List.length (Compiler.p_bytecode B)) < 2147483648)%N ->
+    eval_program fuel M host = PObs o ->
+    C01SimDefs2.needed_f2 M <= budget ->
+    let r := Vm.run F bld budget (C15Link.to_vm B) Vm.fresh_state in
+    C01SimDefs.vm_kind (fst r) = Some (ob_kind o) /\
+    forall n, C01SimDefs.no_collision (C01SimDefs2.main_names2 (C01SimDefs.main_cards M)) n ->
+      option_map C01SimDefs.vm_tree (Vm.read_var_by_name (C15Link.to_vm B) (snd r) n) = assoc n (ob_globals o).
+Proof. exact C01SimF2.compile_correct_f2. Qed.
+Print Assumptions C01_compile_correct_f2.
+
+(* an instance with nested conditionals, every branch kind taken and skipped *)
+Definition f2_example : module :=
+  prog [("main", fn [] [CSetGlobalVar (s "x") (CScalarInt 7);
+                        CBin BIfTrue (CBin BLess (CReadVar (s "x")) (CScalarInt 10))
+                             (CTri TIfElse (CBin BEquals (CReadVar (s "x")) (CScalarInt 7))
+                                   (CSetGlobalVar (s "y") (CScalarInt 1))
+                                   (CSetGlobalVar (s "y") (CScalarInt 2)));
+                        CBin BIfFalse (CReadVar (s "y")) (CSetGlobalVar (s "z") (CScalarInt 3));
+                        CTri TIfElse CScalarNil
+                             (CSetGlobalVar (s "w") (CScalarInt 4))
+                             (CBin BIfFalse CScalarNil (CSetGlobalVar (s "w") (CBin BMul (CReadVar (s "x")) (CReadVar (s "y")))));
+                        CBin BIfTrue (CScalarInt 0) (CSetGlobalVar (s "never") (CReadVar (s "unset")))])].
+Example C01_compile_correct_f2_instance :
+  match Compiler.compile f2_example CompilerProofs.default_options, eval_program 200 f2_example [] with
+  | Compiler.COk B, PObs o =>
+      C01SimDefs2.in_f2 f2_example = true /\
+      C01SimDefs.handles_inj (C01SimDefs2.main_names2 (C01SimDefs.main_cards f2_example)) = true /\
+      C01SimDefs2.depth_ok2 (C01SimDefs.main_cards f2_example) = true /\
+      (N.of_nat (List.length (Compiler.p_ids B)) <? Bits.two32)%N = true /\
+      (N.of_nat (List.length (Compiler.p_bytecode B)) <? 2147483648)%N = true /\
+      Nat.leb (C01SimDefs2.needed_f2 f2_example) 60 = true /\
+      (ob_kind o, ob_globals o) = (KOk, [(s "x", TrInt 7); (s "y", TrInt 1); (s "w", TrInt 7)]) /\
+      let r := Vm.run no_floats Vm.Debug 60 (C15Link.to_vm B) Vm.fresh_state in
+      C01SimDefs.vm_kind (fst r) = Some (ob_kind o) /\
+      map (fun n => option_map C01SimDefs.vm_tree (Vm.read_var_by_name (C15Link.to_vm B) (snd r) n))
+          [s "x"; s "y"; s "z"; s "w"; s "never"; s "unset"]
+      = map (fun n => assoc n (ob_globals o)) [s "x"; s "y"; s "z"; s "w"; s "never"; s "unset"]
+  | _, _ => False
+  end.
+Proof. vm_compute. repeat split; reflexivity. Qed.
